@@ -259,6 +259,9 @@ CustomTypes == {"aol.CreateTopic", "aol.AddWriter", "aol.DeleteWriter", "aol.Add
 \* abstract identifiers that stand for strings containing NUL, the x/nft store-key delimiter (harness: "a\0b", "b\0c")
 NulIds == IF "nulids" \in Deviations THEN {} ELSE {"nz", "iz"}
 
+\* abstract topic names that stand for names outside the published alphabet (harness: "ts" = "a/b", the genesis key separator)
+BadTopics == IF "slashtopics" \in Deviations THEN {} ELSE {"ts"}
+
 \* GetSigners of a message, in order
 Signers(m) ==
     CASE m.type \in {"aol.CreateTopic", "aol.AddWriter", "aol.DeleteWriter"} -> <<m.owner>>
@@ -282,6 +285,7 @@ Stateless(m) ==
       [] m.type \in {"bank.Send", "vesting.Create"} -> IF m.amt <= 0 THEN "sdk/10" ELSE ""
       [] m.type = "bank.MultiSend" -> IF m.amt <= 0 THEN "sdk/10" ELSE ""
       [] m.type \in {"authz.Grant", "authz.Revoke"} -> IF m.granter = m.grantee THEN "authz/7" ELSE ""
+      [] m.type \in {"aol.CreateTopic", "aol.AddWriter", "aol.DeleteWriter", "aol.AddRecord"} -> IF m.topic \in BadTopics THEN "aol/3" ELSE ""
       [] OTHER -> ""
 
 Apply(m, s, now) ==
